@@ -27,6 +27,14 @@
 (*       - no spinning: the run ends within the poll bound, and every poll *)
 (*         either saw a Pending transport or made a transport call         *)
 (*         (polls <= Pendings + reads + 1)                                 *)
+(*                                                                         *)
+(* Environment (harness): every other run the transport fills the buffer   *)
+(* initialize_unfilled / advance style; on every third run another         *)
+(* connection is decoded on the same thread at each Pending (no event: for *)
+(* this decoder it is a stuttering step - its state is the caller-held one *)
+(* and nothing else).  Runs whose Reset carries "big" describe frames of   *)
+(* 4 KiB .. 12 MiB: bytes = the first bytes only (all that MinFrameEnd     *)
+(* reads), packet and body are digests computed by the harness.            *)
 (***************************************************************************)
 EXTENDS Wire, TraceBase
 
